@@ -4,7 +4,10 @@ package absnfs
 
 import (
 	"fmt"
+	"runtime"
+	"sync/atomic"
 	"testing"
+	"time"
 
 	"verif.local/lib/evid"
 	"verif.local/lib/refs"
@@ -70,6 +73,140 @@ func TestVerif_C08(t *testing.T) {
 	for _, how := range []string{"construction", "UpdatePolicyOptions", "UpdateExportOptions"} {
 		vfC08Run(rec, how)
 	}
+	for i, proc := range []string{"MKDIR", "WRITE", "CREATE", "REMOVE", "SETATTR", "SYMLINK", "RENAME"} {
+		vfC08InFlight(rec, proc, i%2 == 0)
+	}
+}
+
+// vfC08InFlight: a mutating request is parked inside the backend (optionally long enough
+// for HandleCall to give up on it), the export is switched to read-only, and the request
+// is released. No modifying backend call may complete after the switch has returned.
+func vfC08InFlight(rec *evid.Rec, proc string, timeoutFirst bool) {
+	fs := refs.New()
+	fs.PlantDir("/d", 0777, 0, 0)
+	fs.PlantFile("/d/f", []byte("data"), 0666, 0, 0)
+	opts := ExportOptions{AttrCacheTimeout: 1}
+	if timeoutFirst {
+		opts.Timeouts = &TimeoutConfig{DefaultTimeout: 30 * time.Millisecond}
+	}
+	srv, err := vfNewSrv(fs, opts)
+	if err != nil {
+		rec.Infra(err.Error())
+		return
+	}
+	defer srv.Close()
+	c := srv.client()
+	root, _ := c.mnt("/")
+	l, _ := c.lookup(root, "d")
+	if l == nil || l.Status != 0 {
+		rec.Infra("lookup d")
+		return
+	}
+	dh := vfFH(l.FH)
+	l, _ = c.lookup(dh, "f")
+	fh := vfFH(l.FH)
+	lg := &vfC16Log{open: map[uint64]*vfOpEv{}, gates: map[string]*vfGate{}}
+	gate := &vfGate{parked: make(chan struct{}), open: make(chan struct{})}
+	target := "/d/new"
+	if proc == "WRITE" || proc == "REMOVE" || proc == "SETATTR" || proc == "RENAME" {
+		target = "/d/f"
+	}
+	lg.gates[target] = gate
+	fs.SetHook(lg.hook(srv.nfs))
+	reqDone := make(chan struct{})
+	go func() {
+		defer close(reqDone)
+		cl := srv.client()
+		switch proc {
+		case "MKDIR":
+			cl.mkdir(dh, "new", sattrNone)
+		case "WRITE":
+			cl.write(fh, 0, 2, []byte("evil"))
+		case "CREATE":
+			cl.create(dh, "new", 0, sattrNone, [8]byte{})
+		case "REMOVE":
+			cl.remove(dh, "f")
+		case "SETATTR":
+			cl.setattr(fh, xdrw.Sattr3{Mode: xdrw.U32p(0600), Size: xdrw.U64p(1)})
+		case "SYMLINK":
+			cl.symlink(dh, "new", "f", sattrNone)
+		case "RENAME":
+			cl.rename(dh, "f", dh, "g")
+		}
+	}()
+	release := func() {
+		select {
+		case <-gate.open:
+		default:
+			close(gate.open)
+		}
+	}
+	defer release()
+	select {
+	case <-gate.parked:
+	case <-time.After(20 * time.Second):
+		rec.Inconclusive(1)
+		return
+	}
+	if timeoutFirst {
+		select {
+		case <-reqDone: // HandleCall gave up; the request's goroutine is still parked in the backend
+		case <-time.After(20 * time.Second):
+			rec.Inconclusive(1)
+			return
+		}
+	}
+	var updRet atomic.Int64
+	updDone := make(chan struct{})
+	go func() {
+		defer close(updDone)
+		p := *srv.nfs.policy.Load()
+		p.ReadOnly = true
+		srv.nfs.UpdatePolicyOptions(p)
+		updRet.Store(lg.tick.Add(1))
+	}()
+	for d := time.Now().Add(10 * time.Second); time.Now().Before(d) && !vfDraining(srv.nfs) && updRet.Load() == 0; {
+		runtime.Gosched()
+	}
+	for y := 0; y < 50; y++ {
+		runtime.Gosched()
+	}
+	release()
+	select {
+	case <-updDone:
+	case <-time.After(30 * time.Second):
+		rec.Inconclusive(1)
+		return
+	}
+	<-reqDone
+	// let a request goroutine that outlived the update finish its backend work
+	for d := time.Now().Add(5 * time.Second); time.Now().Before(d); {
+		lg.mu.Lock()
+		n := len(lg.open)
+		lg.mu.Unlock()
+		if n == 0 && srv.nfs.policyRWMu.TryLock() {
+			srv.nfs.policyRWMu.Unlock()
+			break
+		}
+		runtime.Gosched()
+	}
+	rec.Eval(1)
+	lg.mu.Lock()
+	late := 0
+	var first string
+	for _, e := range lg.ops {
+		if e.mutating && (e.ta == 0 || e.ta > updRet.Load()) {
+			late++
+			if first == "" {
+				first = fmt.Sprintf("%s(%s)", e.name, e.path)
+			}
+		}
+	}
+	lg.mu.Unlock()
+	if late > 0 {
+		rec.Violate("C08/backend-modified-after-switch-to-read-only-returned/proc="+proc, fmt.Sprintf("%d modifying backend calls (first: %s) completed after UpdatePolicyOptions(ReadOnly) had returned; the request was in flight (timed out first: %v) when the switch began", late, first, timeoutFirst), map[string]any{"proc": proc, "timeout_first": timeoutFirst})
+	}
+	rec.Distinct(fmt.Sprintf("in-flight-switch|%s|timeout-first=%v|late-mutations=%v", proc, timeoutFirst, late > 0))
 }
 
 func vfC08Run(rec *evid.Rec, how string) {
